@@ -124,7 +124,9 @@ def check_extrema_result(x, L0, M0, locs, mags, pad, parabolic):
     if not (np.all(mags[:off] == mags[off]) and np.all(mags[off + n:] == mags[off + n - 1])):
         return ('extrema:pad-mags', 'pad magnitudes are not the edge magnitude: %s' % mags.tolist())
     if p <= n - 1:
-        RL, RM = ref_pad(L0, M0, p, N)
+        # reflect the block as returned (already shown to equal the reference extrema to 1e-9): whether another padding
+        # round is needed is decided at exactly 0 / N, so the reference must see the same last-bit values
+        RL, RM = ref_pad(blockL, blockM, p, N)
         if not (close(locs, RL) and close(mags, RM)):
             return ('extrema:mirror', 'padding differs from odd reflection: %s vs %s' % (locs.tolist(), RL.tolist()))
     else:
